@@ -396,23 +396,24 @@ Lemma rrun_cons st b r :
   rrun st (b :: r) = let '(st1, o1) := rstep st b in let '(st2, o2) := rrun st1 r in (st2, o1 ++ o2).
 Proof. reflexivity. Qed.
 
-Lemma rrun_body p : forall acc rest, p <> [] ->
-  rrun (RBody (len p) acc) (p ++ rest) =
-  let '(st1, o1) := finish_payload (acc ++ p) in
+Lemma rrun_body p : forall racc rest, p <> [] ->
+  rrun (RBody (len p) racc) (p ++ rest) =
+  let '(st1, o1) := finish_payload (rev racc ++ p) in
   let '(st2, o2) := rrun st1 rest in (st2, o1 ++ o2).
 Proof.
-  induction p as [|x p IH]; intros acc rest Hne; [congruence|].
+  induction p as [|x p IH]; intros racc rest Hne; [congruence|].
   destruct p as [|y q].
-  - cbn [app]. rewrite rrun_cons. cbn [rstep]. change (len [x]) with 1. cbn [Z.leb Z.compare Pos.compare Pos.compare_cont]. reflexivity.
-  - specialize (IH (acc ++ [x]) rest ltac:(discriminate)).
+  - cbn [app]. rewrite rrun_cons. cbn [rstep]. change (len [x]) with 1. cbn [Z.leb Z.compare Pos.compare Pos.compare_cont].
+    cbn [rev]. reflexivity.
+  - specialize (IH (x :: racc) rest ltac:(discriminate)).
     change ((x :: y :: q) ++ rest) with (x :: ((y :: q) ++ rest)).
     rewrite rrun_cons. cbn [rstep].
     assert (Hl : len (x :: y :: q) = len (y :: q) + 1) by (unfold len; cbn [length]; lia).
     pose proof (len_nonneg q) as Hq. assert (Hl2 : len (y :: q) = len q + 1) by (unfold len; cbn [length]; lia).
     destruct (Z.leb_spec (len (x :: y :: q)) 1); [lia|].
     replace (len (x :: y :: q) - 1) with (len (y :: q)) by lia.
-    rewrite IH. rewrite <- app_assoc. cbn [app].
-    destruct (finish_payload (acc ++ x :: y :: q)) as [s1 o1]. destruct (rrun s1 rest). reflexivity.
+    rewrite IH. cbn [rev]. rewrite <- app_assoc. cbn [app].
+    destruct (finish_payload (rev racc ++ x :: y :: q)) as [s1 o1]. destruct (rrun s1 rest). reflexivity.
 Qed.
 
 Definition frame_ok (f : Z * bytes) : Prop :=
@@ -439,7 +440,7 @@ Proof.
   rewrite Hpl. rewrite <- app_assoc. rewrite (app_assoc T4 d rest).
   rewrite rrun_body
     by (intros E; apply (f_equal (@length N)) in E; rewrite app_length in E; unfold T4 in E; rewrite be_enc_length in E; cbn in E; lia).
-  cbn [app]. unfold finish_payload.
+  cbn [rev app]. unfold finish_payload.
   assert (Hl4 : len (T4 ++ d) = 4 + len d) by (rewrite len_app; unfold len, T4; rewrite be_enc_length; lia).
   rewrite Hl4. destruct (Z.ltb_spec (4 + len d) 4); [lia|].
   rewrite firstn_app_exact by (unfold T4; apply be_enc_length).
